@@ -414,7 +414,7 @@ def _identity_bearing(t: ast.AST, param: str, env_roots: Set[str]) -> bool:
     if isinstance(t, ast.Name):
         return t.id in env_roots
     if isinstance(t, ast.Call) and show(t.func) == "id" and t.args:
-        return True
+        return False  # see below: the memo outlives the callable, an address is reused after collection
     if isinstance(t, ast.Attribute):
         if t.attr in IDENTITY_ATTRS:
             return True
@@ -433,7 +433,7 @@ def rule_cachekey(ctx: Ctx, rule: str = "C07.cachekey"):
         for e in p.of("bind"):
             if e.x["name"] == "key":
                 keysrc = xshow(e.term, p.events)
-    rep.check(keysrc is not None and keysrc.startswith("_make_key(") or (keysrc or "").startswith("id("), rule, cached.loc(),
+    rep.check(keysrc is not None and keysrc.startswith("_make_key("), rule, cached.loc(),
               "the memo key is computed from the callable being adapted", cached.key, f"key = {keysrc}")
     mk = ctx.p.find_fn("_make_key")
     if mk is None:
@@ -469,6 +469,12 @@ def rule_cachekey(ctx: Ctx, rule: str = "C07.cachekey"):
         else:
             elems = [inner]
         roots = {param}
+        by_id = [e for e in elems for c_ in ast.walk(e) if isinstance(c_, ast.Call) and show(c_.func) == "id"]
+        if by_id:
+            rep.violation(rule, mk.loc(), "a component of the memo key is the id() of an object the memo does not keep alive: once the callable "
+                          "is collected its address is handed to the next code object / function, which then finds the stale signature", mk.key,
+                          f"return {show(v)}", components=[show(e) for e in by_id])
+            continue
         ok = any(_identity_bearing(e, param, roots) or
                  (isinstance(e, ast.Attribute) and any(isinstance(x, ast.Attribute) and x.attr in IDENTITY_ATTRS and x is e for x in [e]))
                  for e in elems)
